@@ -115,6 +115,8 @@ type Term struct {
 	i2   int
 	id   uint64
 	size int // approximate dag size (saturating), used for sharing decisions
+	sv      *Term // memo for singleVar
+	svState int
 }
 
 var termCounter uint64
